@@ -6,11 +6,15 @@ package main
 func init() {
 	constVariants["small"] = map[string]map[string]string{
 		"github.com/ozontech/seq-db/consts": {"IDsBlockSize": "64", "IDsPerBlock": "64", "LIDBlockCap": "64", "RegularBlockSize": "1024"},
+		// the fetch stream loads its first chunk of initChunkSize ids (shipped: 1000) and sizes the next ones from
+		// the average document size: reachable with tens of documents
+		"github.com/ozontech/seq-db/storeapi": {"initChunkSize": "16"},
 	}
 	constVariants["tiny"] = map[string]map[string]string{
 		"github.com/ozontech/seq-db/consts": {"IDsBlockSize": "4", "IDsPerBlock": "4", "LIDBlockCap": "8", "RegularBlockSize": "64"},
 		// the cache re-creates its map once it held >= recreateThreshold entries and a cleaning pass leaves
 		// at most 1/excessiveSizeFactor of them (shipped: 200 and 10): reachable with a handful of keys
-		"github.com/ozontech/seq-db/cache": {"recreateThreshold": "4", "excessiveSizeFactor": "2"},
+		"github.com/ozontech/seq-db/cache":    {"recreateThreshold": "4", "excessiveSizeFactor": "2"},
+		"github.com/ozontech/seq-db/storeapi": {"initChunkSize": "4"},
 	}
 }
